@@ -175,8 +175,9 @@ def run(ctx: Ctx):
     # S2: every permission-gated repair branch has an `else` all of whose paths raise (a defect that may
     # not be repaired is raised, never silently accepted)
     nrep = 0
+    in_token_loop = _ref_token_loop_nodes(f)  # what happens to one reference token is decided as a table (S9), whatever its branching
     for n in own_nodes(f.node):
-        if isinstance(n, ast.If) and _has_conjunct(n.test, "fix is not None") and n.lineno > loop.lineno:
+        if isinstance(n, ast.If) and _has_conjunct(n.test, "fix is not None") and n.lineno > loop.lineno and id(n) not in in_token_loop:
             nrep += 1
             pe2 = PathEnumerator(lambda x: "RAISE" if isinstance(x, ast.Raise) else None, exc_edges=False)
             eps = pe2.paths(n.orelse) if n.orelse else []
@@ -184,7 +185,7 @@ def run(ctx: Ctx):
             col.ob("G10", "S2", f"{where}::repair-or-raise@[{_guard_key(guards_of(pm, n) + [(n.test, True)])}]", ok,
                    f"the defect handled at `if {u(n.test)[:70]}` is silently accepted when it may not be repaired "
                    f"(no `else: raise`)", rel, n.lineno, sample=u(n.test)[:100])
-    col.floor("repair_or_raise_sites", nrep, 6)
+    col.floor("repair_or_raise_sites", nrep, 3)
     col.ob("G10", "S3", f"{where}::repairs-are-written-back", bad_s3 is None,
            (bad_s3[1] + ": " + " ".join(bad_s3[0].labels())) if bad_s3 else "", rel, f.line,
            sample=dict(paths=len(paths), signatures=len(sigs)))
@@ -237,11 +238,19 @@ def run(ctx: Ctx):
         from sa.inline import Inliner as _InlC
         inl_c = _InlC(cli.node, keep={ov} if ov else ())
         va = inl_c.expand(va) if va is not None else None  # `do_validate = options.strict or ...`
-        parts = set()
-        if isinstance(va, ast.BoolOp) and isinstance(va.op, ast.Or):
-            parts = {u(x) for x in va.values}
-        ok = parts == {f"{ov}.strict", f"{ov}.fix is not None"} and u(got.get("info")) == "True" \
-            and u(got.get("fix")) == f"{ov}.fix"
+        # validate == (--strict or --fix given), as a truth table over (strict, fix): an `or`, an if/else into a flag, ...
+        from sa.inteval import NotEvaluable as _NE, guarded_value as _gv
+        rd_cli, pm_cli = ReachingDefs(cli.node), parent_map(cli.node)
+        table_ok = va is not None
+        try:
+            for strict_ in (True, False):
+                for fix_ in (None, 0, 2):
+                    if va is not None and bool(_gv(got.get("validate"), {f"{ov}.strict": strict_, f"{ov}.fix": fix_}, rd_cli, pm_cli)) \
+                            != (strict_ or fix_ is not None):
+                        table_ok = False
+        except _NE:
+            table_ok = False
+        ok = table_ok and u(got.get("info")) == "True" and u(inl_c.expand(got.get("fix"))) == f"{ov}.fix"
         col.ob("G1", "S5", "command_line.py::get_torch_spect_data_dir_info::_info_and_validate-binding", ok,
                f"the command validates iff `{u(va)}`; expected --strict or --fix given "
                f"(options.strict or options.fix is not None), fix=options.fix", "command_line.py", c.lineno,
@@ -347,7 +356,10 @@ def _s4(ctx, f, pm, rd, kindvar, where, rel):
                 and u(n.targets[0].slice) == "2" and u(n.value) == T:
             crops.append(("ref", n))
     col.floor("crop_sites", len(crops), 2)
+    in_token_loop = _ref_token_loop_nodes(f)
     for kind, n in crops:
+        if kind == "ref" and id(n) in in_token_loop:
+            continue  # the tolerance of the per-token repair is a row of the S9 decision table
         gs = guards_of(pm, n)
         # the innermost guard that consults the tolerance, as a conjunction of comparisons: the true arm of `a and b`, or the
         # complement of a guard clause `if a' or not (b): raise` (De Morgan)
@@ -425,22 +437,49 @@ def _s6(ctx, rel):
                                                                      and x.func.attr == "dim") for x in cands):
             ndim_names.add(d.name)
     seen = set()
+    # Which concatenations run is a function of (sos given?, eos given?, dimensionality): every guard of every cat site is
+    # evaluated on the 8 combinations (however the tests are nested, merged with `and`, or turned into early returns).
+    from sa.inteval import NotEvaluable as _NE6, int_eval as _ie6
+    tnames = {d.name for d in rd.defs if d.value is not None and any(isinstance(x, ast.Call) and call_name(x) == "torch.load" for x in ast.walk(d.value))}
+    combos = [(so, eo, dd) for so in (None, 5) for eo in (None, 6) for dd in (1, 2)]
+
+    def _reached(c, so, eo, dd):
+        env = {"sos": so, "eos": eo}
+        for nm in ndim_names:
+            env[nm] = dd
+        for t, pol in guards_of(pm, c):
+            if bool(_ie6(t, env)) != pol:
+                return False
+        return True
+    cat_info = {}
+    try:
+        reach = {id(c): [cb for cb in combos if _reached(c, *cb)] for c in cats}
+    except _NE6 as ex_:
+        col.undecided(f"{where}: a guard of a concatenation is outside the evaluated fragment ({ex_})")
+        return
     for c in cats:
         gs = guards_of(pm, c)
-        sym = None
-        for t, pol in gs:
-            s = u(t)
-            if s in ("sos is not None", "eos is not None") and pol:
-                sym = s[:3]
-        if sym is None:
-            continue
         elts = c.args[0].elts
         if len(elts) != 2:
             continue
-        # which element is the transcript (the variable being re-assigned)?
+        # which element is the transcript (the loaded tensor being extended)?
         st = pm.get(c)
         tgt = u(st.targets[0]) if isinstance(st, ast.Assign) else None
+        if tgt is None:
+            cands_ = [u(e) for e in elts if u(e) in tnames]
+            tgt = cands_[0] if len(cands_) == 1 else None
         pos = [i for i, e in enumerate(elts) if u(e) == tgt]
+        other_ = elts[1 - pos[0]] if len(pos) == 1 else None
+        der_ = rd.derives(other_) if other_ is not None else None
+        syms_ = {nm for nm in ("sos", "eos") if der_ is not None and any(isinstance(n, ast.Name) and n.id == nm for n in list(der_.nodes()) + list(ast.walk(other_)))}
+        sym = syms_.pop() if len(syms_) == 1 else None
+        if sym is None:
+            # by the guards: the symbol that is given in every combination reaching the site
+            g_ = [nm for nm, k in (("sos", 0), ("eos", 1)) if reach[id(c)] and all(cb[k] is not None for cb in reach[id(c)])]
+            sym = g_[0] if len(g_) == 1 else None
+        if sym is None:
+            continue
+        cat_info[id(c)] = sym
         if len(pos) != 1:
             col.ob("G16", "S6", f"{where}::{sym}-cat-shape", False, f"`{u(c)}` does not concatenate a symbol row "
                    f"with the transcript", rel, c.lineno)
@@ -455,10 +494,18 @@ def _s6(ctx, rel):
                 variants = [(d.value, list(gs) + list(guards_of(pm, d.stmt))) for d in ds_]
         gs_cat = gs
         for other, gs in variants:
-            dim2 = any(isinstance(t, ast.Compare) and len(t.ops) == 1 and isinstance(t.ops[0], ast.Eq) and u(t.comparators[0]) == "2"
-                       and isinstance(t.left, ast.Name) and t.left.id in ndim_names and pol for t, pol in gs)
-            key = f"{sym}-{'2d' if dim2 else '1d'}"
-            seen.add(key)
+            def _holds(cb):
+                env = {"sos": cb[0], "eos": cb[1]}
+                for nm in ndim_names:
+                    env[nm] = cb[2]
+                try:
+                    return all(bool(_ie6(t, env)) == pol for t, pol in gs)
+                except _NE6:
+                    return False
+            dd_ = {cb[2] for cb in combos if _holds(cb)}
+            for d_ in sorted(dd_):
+                seen.add(f"{sym}-{d_}d")
+            key = f"{sym}-{'2d' if dd_ == {2} else '1d' if dd_ == {1} else 'anyd'}"
             want_pos = 1 if sym == "sos" else 0  # transcript position in the list
             col.ob("G16", "S6", f"{where}::{key}::order", pos[0] == want_pos,
                    f"the {sym} symbol is concatenated on the wrong side of the transcript: `{u(c)}`", rel, c.lineno,
@@ -482,8 +529,15 @@ def _s6(ctx, rel):
                    f"the {sym} row takes its shape from `{u(donors[0]) if donors else ''}`, i.e. from dimension 0 of "
                    f"the transcript: an empty transcript yields an empty row (or IndexError) and gets no {sym}",
                    rel, c.lineno, sample=[u(d) for d in donors])
-    col.ob("G16", "S6", f"{where}::all-four-variants", seen == {"sos-1d", "sos-2d", "eos-1d", "eos-2d"},
-           f"sos/eos insertion variants found: {sorted(seen)}", rel, f.line)
+    # in every combination exactly the given symbols are inserted, sos before eos
+    bad_cb = None
+    for cb in combos:
+        ran = [cat_info[id(c)] for c in sorted(cats, key=lambda c: c.lineno) if id(c) in cat_info and cb in reach[id(c)]]
+        exp_ = (["sos"] if cb[0] is not None else []) + (["eos"] if cb[1] is not None else [])
+        if ran != exp_ and bad_cb is None:
+            bad_cb = dict(sos=cb[0] is not None, eos=cb[1] is not None, ndim=cb[2], inserts=ran, expected=exp_)
+    col.ob("G16", "S6", f"{where}::all-four-variants", bad_cb is None and {"sos-1d", "sos-2d", "eos-1d", "eos-2d"} <= seen,
+           f"sos/eos insertion variants found: {sorted(seen)}; {bad_cb}", rel, f.line)
     # _write_hyp
     w = pkg.func(f"{MOD}::_write_hyp")
     where = f"{rel}::_write_hyp"
@@ -702,6 +756,18 @@ def _write_back_source(ctx: Ctx):
 
 
 
+def _ref_token_loop_nodes(f) -> set:
+    """ids of the nodes of the per-token boundary loop of the reference section (decided as a whole by the S9 decision table)."""
+    out = set()
+    for n in own_nodes(f.node):
+        if isinstance(n, ast.For) and isinstance(n.target, ast.Tuple) and len(n.target.elts) == 2 and isinstance(n.target.elts[1], ast.Name) \
+                and isinstance(n.iter, ast.Call) and call_name(n.iter) == "enumerate":
+            rv = n.target.elts[1].id
+            if any(isinstance(x, ast.Subscript) and u(x.value) == rv and u(x.slice) in ("1", "2") for x in ast.walk(n)):
+                out |= {id(x) for x in ast.walk(n)}
+    return out
+
+
 def _ref_boundary_decision_table(ctx: Ctx):
     """S9: what validation does with one reference token (start, end) given the frame count T and the fix tolerance is a
     function of finitely many orderings of the four integers. The per-token statement block is interpreted (comparisons,
@@ -785,6 +851,10 @@ def _ref_boundary_decision_table(ctx: Ctx):
                     return r_
             elif isinstance(st, ast.Raise):
                 return "raise"
+            elif isinstance(st, ast.Continue):
+                return "next"  # done with this token
+            elif isinstance(st, ast.Pass):
+                continue
             elif isinstance(st, ast.Assign) and len(st.targets) == 1 and isinstance(st.targets[0], ast.Subscript) and u(st.targets[0].value) == rv:
                 sl_ = st.targets[0].slice
                 val = ev(st.value, env)
@@ -918,7 +988,7 @@ def _mutants():
         M("drop-else-raise", D,
           "if fix is not None and r[1] <= T >= r[2] - fix:\n    warnings.warn(msg + '. Reducing upper bound')\n    r[2] = T\n    write_back = True\nelse:\n    raise ValueError(msg)",
           "if fix is not None and r[1] <= T >= r[2] - fix:\n    warnings.warn(msg + '. Reducing upper bound')\n    r[2] = T\n    write_back = True",
-          "repair-or-raise"),
+          "per-token-decision-table"),
         M("ali-writeback-dropped", D, "if write_back:\n    torch.save(ali, os.path.join(dir_, fn))\n    write_back = False",
           "write_back = False", "G10/S3"),
         M("ref-saved-into-ali-dir", D, "dir_ = os.path.join(data_set.data_dir, data_set.ref_subdir)",
@@ -926,9 +996,9 @@ def _mutants():
         M("save-wrong-tensor", D, "torch.save(ref, os.path.join(dir_, fn))", "torch.save(ali, os.path.join(dir_, fn))", "G10/S3"),
         M("flag-cleared-before-save", D, "ali = ali[:T]\nwrite_back = True", "ali = ali[:T]\nwrite_back = False", "G10/S"),
         M("tolerance-off-by-one", D, "T + fix >= ali.shape[0] > T", "T + fix > ali.shape[0] > T", "ali-crop-tolerance"),
-        M("ref-tolerance-ignores-fix", D, "r[1] <= T >= r[2] - fix", "r[1] <= T >= r[2] - 1", "ref-crop-tolerance"),
+        M("ref-tolerance-ignores-fix", D, "r[1] <= T >= r[2] - fix", "r[1] <= T >= r[2] - 1", "per-token-decision-table"),
         M("ref-tolerance-start-unchecked", D, "fix is not None and r[1] <= T >= r[2] - fix", "fix is not None and T >= r[2] - fix",
-          "ref-crop-tolerance"),
+          "per-token-decision-table"),
         M("crop-keeps-tail", D, "ali = ali[:T]", "ali = ali[-T:]", "ali-crop"),
         M("validate-entry-swapped", D, "_info_and_validate(data_set, False, True, fix)", "_info_and_validate(data_set, True, False, fix)",
           "_info_and_validate-binding"),
